@@ -40,6 +40,8 @@ def check_index_spaces(ctx, fn_keys, rule='A21'):
         fn = ctx.fn(key)
         loops = _loops(fn)
         if not loops:
+            if fn.name == '_update_comb_fixed_mask':
+                continue        # decided by check_translation below
             raise AnalysisError(f'{key}: no loop over enumerate(_sel_choice_idx_map) found')
         for counter, elem, scope in loops:
             for sub in ast.walk(scope):
@@ -69,3 +71,45 @@ def check_index_spaces(ctx, fn_keys, rule='A21'):
                            sub.left.id == counter, f'{fn.module.relpath}:{sub.lineno}',
                            f'the fixed-value table is keyed by the design-vector index `{counter}`', short(sub))
     return n
+
+
+def check_translation(ctx, rule='A21'):
+    """_update_comb_fixed_mask: the dictionary handed to get_available_combinations_mask is keyed by *choice*
+    indices, i.e. by elements of _sel_choice_idx_map - never by positions in the design vector (keys of the
+    fixed-value table)."""
+    fn = ctx.fn(f'{GP}._update_comb_fixed_mask')
+    cs = calls(fn, 'get_available_combinations_mask')
+    if not cs or not cs[0].args:
+        raise AnalysisError('_update_comb_fixed_mask: call of get_available_combinations_mask not found')
+    arg = cs[0].args[0]
+    keys = []
+    if isinstance(arg, ast.Name):
+        for s in walk_fn(fn):
+            if isinstance(s, ast.Assign):
+                for t in s.targets:
+                    if isinstance(t, ast.Subscript) and norm(t.value) == arg.id:
+                        keys.append((t.slice, s))
+                    if isinstance(t, ast.Name) and t.id == arg.id and isinstance(s.value, ast.DictComp):
+                        keys.append((s.value.key, s.value))
+    elif isinstance(arg, ast.DictComp):
+        keys.append((arg.key, arg))
+    if not keys:
+        raise AnalysisError('_update_comb_fixed_mask: construction of the fixed-choice dictionary not recognised')
+    elems = {elem for _, elem, _ in _loops(fn)}
+    # also `for i_dec in self._sel_choice_idx_map` and explicit subscripts
+    for s in walk_fn(fn):
+        if isinstance(s, ast.For) and norm(s.iter).endswith('_sel_choice_idx_map') and isinstance(s.target, ast.Name):
+            elems.add(s.target.id)
+    for k, where in keys:
+        ok = (isinstance(k, ast.Name) and k.id in elems) or \
+            (isinstance(k, ast.Subscript) and norm(k.value).endswith('_sel_choice_idx_map'))
+        if not ok and isinstance(k, ast.Name):
+            # a name assigned from self._sel_choice_idx_map[...]
+            defs = [a for a in walk_fn(fn) if isinstance(a, ast.Assign) and norm(a.targets[0]) == k.id]
+            ok = bool(defs) and all(isinstance(a.value, ast.Subscript) and
+                                    norm(a.value.value).endswith('_sel_choice_idx_map') for a in defs)
+        ctx.ob(rule, fkey(fn, rule, f'fixed-choices-key:{short(k, 30)}'), ok, f'{fn.module.relpath}:{where.lineno}',
+               'the fixed-choice dictionary is keyed by choice indices taken from _sel_choice_idx_map (a position '
+               'in the design vector is a different index as soon as a forced choice precedes it)',
+               f'key `{short(k)}`' + ('' if ok else ' does not come from _sel_choice_idx_map'))
+    return len(keys)
